@@ -15,12 +15,16 @@ The only hypotheses are `ParserWF e`, the day range 1900–9999 (outside: `C01_m
 `C01_spec_outside`) and a decidable class of dated ranges (which implies `exprDefined e`):
  * `C01_schedule_refines_spec_plain` (every day of 1900–9999) and `C01_schedule_refines_spec_window` (and `'`,
    pointwise conclusion): dated ranges in the RULE-LEVEL decidable class `exprDatedPlain e` (= `exprDatedSafe e d`
-   for every `d`): both day offsets within ±92 000 000 days (about ±252 000 years: as far as the years the code looks
-   at are years of chrono's calendar) between two fixed dates without a year — for a single day the END offset only —,
-   within ±30 000 000 days from a start with a year to a yearless end, within ±300 000 days when one of the two dates
-   is Easter; NO bound at all when both dates carry a year; and, beyond representability, any yearless start moved
-   by +99 500 000 days or more (nothing ever starts before 10000-01-01: both sides say "never",
-   OH/Proofs/DatedFar.lean) — and a defined meaning (not "no year … year") —
+   for every `d`): a defined meaning (not "no year … year") and
+     - two FIXED dates without a year (`Jan 01 …-Dec 31 …`, `Feb 29 …`): NO condition — every day offset an i64 can
+       hold, within and beyond representability (OH/Proofs/EvalSpecDatedAll.lean: `year_before_offset` pinned at the
+       first/last year of the calendar, windows cut by the calendar, occurrences pinned at `NaiveDate::MIN/MAX`);
+     - both dates carry a year: NO condition;
+     - a start with a year before a fixed yearless end: both day offsets within ±30 000 000 days;
+     - one of the two dates is Easter: both day offsets within ±300 000 days (all years looked at are ≥ 0) — or,
+       beyond representability, a yearless start moved by +99 500 000 days or more (nothing ever starts before
+       10000-01-01: both sides say "never", OH/Proofs/DatedFar.lean)
+   —
    NOTHING ELSE: bounds with or without a year, single days, any weekday shift, shifts of several years,
    occurrences longer than a year, offsets that differ by years (`Jan 01 +400 days-Jan 10 +770 days`).
    This is what centring the pairing windows of `MonthdayRange::Date` on the year of `d - day offset`
@@ -36,16 +40,14 @@ The only hypotheses are `ParserWF e`, the day range 1900–9999 (outside: `C01_m
  * `C04_schedule_total`: `daySchedule` never fails under `ParserWF` alone (every day, context, offset).
 No offset-scope hypothesis is left: the specification shifts days with the same saturating shift as the
 (repaired) code, see `OH.Spec.shift`, `OH.Spec.weekdayOk` and the history note below.
-NOT proved (rests on oracle + correspondence): day offsets beyond these bounds (±92 000 000 / ±30 000 000 /
-±300 000 days); nothing is known to fail there — since /repo 5cdd92e also beyond about
+NOT proved (rests on oracle + correspondence): day offsets beyond ±30 000 000 days after a start with a year,
+beyond ±300 000 days next to Easter; nothing is known to fail there — since /repo 5cdd92e also beyond about
 ±92 000 000 days, where `d - offset` or a year of the window around it is not representable and a bound simply has
 no occurrence: lean/scratch/BFDated.lean (offsets up to ±2·10⁸: 0 mismatch with the specification, 0 unsound hint)
 and the oracle on generated offsets up to ±10⁹ days.  Why the
-proofs stop there: beyond ±92 000 000 days `year_before_offset` saturates or the windows are cut by the calendar;
-from a start with a year the centre of the search for the end is the year of `start - end offset`, which needs
-`|so| + |eo|` inside the calendar (the ±30 000 000 proof does not handle saturated instances of the specification's
-far candidate years; the ±92 000 000 one does, by weak monotonicity); Easter: `easter()` of a negative year is not
-a date of March/April (notes/DATED-BOUND.md).
+proofs stop there: `dated_year_yearless_eq` (a start with a year) has not been ported to the saturation-aware
+machinery of EvalSpecDatedWide/All.lean; Easter: `easter()` of a negative year is not a date of March/April, it
+can be `Feb 30` — no occurrence (notes/DATED-BOUND.md).
 Older clauses kept below:
  * outside 1900-01-01 … 9999-12-31 both the model and the specification say closed;
  * the day schedule does not depend on the interval-size bound, and two contexts with the same
@@ -193,8 +195,8 @@ def exprDatedSafe (e : Expr) (d : Int) : Bool :=
 
 open OH.Proofs.EvalSpec in
 /-- rule-level class, no reference to the day (see `OH.Proofs.EvalSpec.datedPlain`): day offsets within
-±92 000 000 days between two fixed yearless dates (a single day: the end offset only), ±30 000 000 days from a start
-with a year to a yearless end, ±300 000 days when a bound is Easter, any offsets when both bounds carry a year;
+±30 000 000 days from a start with a year to a yearless end, ±300 000 days when a bound is Easter (or a yearless
+start moved by ≥ +99 500 000 days), ANY offsets between two fixed yearless dates and when both bounds carry a year;
 the range has a defined meaning.  Nothing else. -/
 def exprDatedPlain (e : Expr) : Bool :=
   e.all (fun r => r.day.monthday.all (fun m => match m with
@@ -282,9 +284,9 @@ theorem C01_schedule_refines_spec_inyear (ctx : Ctx) (e : Expr) (d : Int) (hwf :
   C01_schedule_refines_spec_window ctx e d hwf h1 h2 hds
 
 /-- C01 for every day of 1900–9999, for expressions in the RULE-LEVEL class `exprDatedPlain`: every dated
-range with a defined meaning whose day offsets are within ±92 000 000 days (two fixed yearless dates),
-±30 000 000 days (a start with a year before a yearless end), ±300 000 days (a bound is Easter), any (two bounds
-with a year) — (`Jan 10-Feb 20`, `Dec 24-Jan 2`,
+range with a defined meaning whose day offsets are any (two fixed yearless dates; two bounds with a year), within
+±30 000 000 days (a start with a year before a yearless end), ±300 000 days (a bound is Easter)
+— (`Jan 10-Feb 20`, `Dec 24-Jan 2`,
 `Feb 29`, `2020 Dec 24-Jan 2`, `easter -47 days-easter +60 days`, `Jan 1 -10 days-Dec 25`,
 `Jan 01 +400 days-Jan 10 +770 days`, `Feb 29 -1000 days-Feb 29 +10 days`, `2020 Jan 1-Feb 1 +800 days`) -/
 theorem C01_schedule_refines_spec_plain (ctx : Ctx) (e : Expr) (d : Int) (hwf : ParserWF e = true)
@@ -379,7 +381,8 @@ two years after a start with a year: all inside the rule-level class (`Jan 1 +80
 `Jan 01 +400 days-Jan 10 +770 days`, `Feb 29 -1000 days-Feb 29 +10 days`, `2020 Jan 1-Feb 1 +800 days`,
 `Jan 01 -Mo -100000 days-Dec 31 +Su +100000 days`, and at the bound of the class
 `Jan 01 -Mo -92000000 days-Dec 31 +Su +92000000 days`, `Jan 01 +92000000 days-Jan 10 -92000000 days`,
-`Feb 29 -10¹² days-Feb 29 +92000000 days`,
+`Feb 29 -10¹² days-Feb 29 +92000000 days`, `Jan 01 +9·10¹⁸ days-Jan 10 -Mo -9·10¹⁸ days`,
+`Feb 29 -200000000 days-Feb 29 +200000000 days`,
 `2020 Jan 1 -30000000 days-Feb 1 +30000000 days`, `easter -300000 days-easter +300000 days`, and with two years
 any offsets: `2020 Jan 1 -1000000000 days-2021 easter +1000000000 days`; beyond representability:
 `easter +99500000 days-Dec 31 -Mo -9000000000000000000 days`) -/
@@ -392,6 +395,8 @@ example :
                             .date (.fixed none 1 1) ⟨.prev 0, -92000000⟩ (.fixed none 12 31) ⟨.next 6, 92000000⟩,
                             .date (.fixed none 1 1) ⟨.none, 92000000⟩ (.fixed none 1 10) ⟨.none, -92000000⟩,
                             .date (.fixed none 2 29) ⟨.none, -1000000000000⟩ (.fixed none 2 29) ⟨.none, 92000000⟩,
+                            .date (.fixed none 1 1) ⟨.none, 9000000000000000000⟩ (.fixed none 1 10) ⟨.prev 0, -9000000000000000000⟩,
+                            .date (.fixed none 2 29) ⟨.none, -200000000⟩ (.fixed none 2 29) ⟨.none, 200000000⟩,
                             .date (.fixed (some 2020) 1 1) ⟨.none, -30000000⟩ (.fixed none 2 1) ⟨.none, 30000000⟩,
                             .date (.easter none) ⟨.none, -300000⟩ (.easter none) ⟨.none, 300000⟩,
                             .date (.fixed (some 2020) 1 1) ⟨.none, -1000000000⟩ (.easter (some 2021)) ⟨.none, 1000000000⟩,
@@ -405,7 +410,7 @@ example :
       [TimeSpan.fullDay], .open, .normal, []⟩]
     exprDatedPlain e0 = false := by decide +kernel
 example :
-    let e1 : Expr := [⟨⟨[], [.date (.fixed none 1 1) ⟨.none, 92000001⟩ (.fixed none 12 31) ⟨.none, 0⟩], [], []⟩,
+    let e1 : Expr := [⟨⟨[], [.date (.easter none) ⟨.none, 99499999⟩ (.fixed none 12 31) ⟨.none, 0⟩], [], []⟩,
       [TimeSpan.fullDay], .open, .normal, []⟩]
     let e2 : Expr := [⟨⟨[], [.date (.easter none) ⟨.none, 0⟩ (.fixed none 12 31) ⟨.none, 300001⟩], [], []⟩,
       [TimeSpan.fullDay], .open, .normal, []⟩]
@@ -431,9 +436,17 @@ example :
   C01_schedule_refines_spec_plain Ctx.default _ 737425 (by decide +kernel) (by decide +kernel)
     (by decide +kernel) (by decide +kernel)
 
-/-- … and at the bound of the class: `Jan 01 -Mo +92000000 days-Jan 10 +Su -92000000 days` (the start comes from
+/-- … and far from any bound: `Jan 01 -Mo +92000000 days-Jan 10 +Su -92000000 days` (the start comes from
 about year -249 900, the end from about year +253 900; the specification looks at every year of chrono's
-calendar, most of whose shifted instances are pinned at `NaiveDate::MIN/MAX`) on 2020-01-01 -/
+calendar, most of whose shifted instances are pinned at `NaiveDate::MIN/MAX`) on 2020-01-01; and beyond
+representability, `Jan 01 -150000000 days-Jan 10 +150000000 days` (no day `d - offset` chrono can represent) -/
+example :
+    let e : Expr := [⟨⟨[], [.date (.fixed none 1 1) ⟨.none, -150000000⟩ (.fixed none 1 10) ⟨.none, 150000000⟩], [], []⟩,
+      [TimeSpan.fullDay], .open, .normal, []⟩]
+    ∃ rs, daySchedule Ctx.default e 737425 = .ok rs ∧ c01Holds Ctx.default e 737425 rs = true :=
+  C01_schedule_refines_spec_plain Ctx.default _ 737425 (by decide +kernel) (by decide +kernel)
+    (by decide +kernel) (by decide +kernel)
+
 example :
     let e : Expr := [⟨⟨[], [.date (.fixed none 1 1) ⟨.prev 0, 92000000⟩ (.fixed none 1 10) ⟨.next 6, -92000000⟩], [], []⟩,
       [TimeSpan.fullDay], .open, .normal, []⟩]
